@@ -24,6 +24,7 @@ var (
 	flagOnly    = flag.String("only", "", "substring filter on obligation names")
 	flagReplayD = flag.String("replaydir", "", "directory for replay files")
 	flagNoRepl  = flag.Bool("noreplay", false, "do not replay models on the real code")
+	flagNoBound = flag.Bool("nobounded", false, "skip the bounded stand-ins")
 	flagFile    = flag.String("file", "", "replay file")
 	flagNoEvid  = flag.Bool("noevidence", false, "do not write the evidence file")
 )
@@ -406,6 +407,32 @@ func cmdCheck() int {
 		}
 		report(name, "obligation not discharged: "+r.Status, r)
 	}
+	// bounded stand-ins on the real code (labelled bounded, never counted as proved)
+	var bounded []boundedResult
+	if *flagFn == "" && *flagOnly == "" && !*flagNoBound {
+		br, bf, berr := runBounded(*flagRepo, *flagVerif, prop, tier, seed)
+		bounded = br
+		if berr != nil {
+			fmt.Println("bounded stand-ins could not run:", berr)
+		}
+		for _, b := range br {
+			fmt.Printf("  bounded   %-40s evaluations=%d distinct=%d failures=%d (%s)\n", b.Name, b.Evaluations, b.Distinct, b.Failures, b.Bound)
+		}
+		for i, bfail := range bf {
+			name := fmt.Sprintf("bounded:%s#%d", bfail.Name, i+1)
+			if kf := known.match(prop, "bounded:"+bfail.Name); kf != nil {
+				knownLines = append(knownLines, fmt.Sprintf("KNOWN-FINDING: property=%s obligation=bounded:%s %s", prop, bfail.Name, kf.What))
+				continue
+			}
+			violations++
+			os.MkdirAll(replayDir, 0o755)
+			path := filepath.Join(replayDir, sym(name)+".json")
+			data, _ := json.MarshalIndent(map[string]interface{}{"property": prop, "obligation": name, "reason": "bounded stand-in failed on the real code", "failing_input_text": bfail.Text,
+				"rerun": "./check " + prop + " (the bounded tests are the files in /verif/bounded/" + prop + "/, run with go test -overlay)"}, "", " ")
+			os.WriteFile(path, data, 0o644)
+			vioLines = append(vioLines, fmt.Sprintf("VIOLATION property=%s replay=%s obligation=%s", prop, path, name))
+		}
+	}
 	if nObl == 0 && len(missing) == 0 {
 		report("no-obligations", "no obligation was generated for this property", nil)
 	}
@@ -419,7 +446,7 @@ func cmdCheck() int {
 	fmt.Printf("property %s tier %s: %d obligations, %d discharged, %d violations, %d known findings, %.1fs\n", prop, tier, nObl, nDis, violations, len(knownLines), wall)
 
 	if !*flagNoEvid && *flagFn == "" && *flagOnly == "" {
-		writeEvidence(e, prop, tier, seed, reports, oreps, nObl, nDis, violations, knownLines, backends, solverMs, wall, vcs)
+		writeEvidence(e, prop, tier, seed, reports, oreps, nObl, nDis, violations, knownLines, backends, solverMs, wall, vcs, bounded)
 	}
 	if violations > 0 {
 		return 1
@@ -488,7 +515,7 @@ func writeLoadFailure(prop, tier string, seed int, replayDir string, err error, 
 }
 
 func writeEvidence(e *Engine, prop, tier string, seed int, reports []*fnReport, oreps []oblReport, nObl, nDis, violations int, known []string,
-	backends map[string]int, solverMs int64, wall float64, vcs []*FuncVC) {
+	backends map[string]int, solverMs int64, wall float64, vcs []*FuncVC, bounded []boundedResult) {
 	assumedSet := map[string]bool{}
 	for _, vc := range vcs {
 		for k := range vc.assumed {
@@ -535,6 +562,7 @@ func writeEvidence(e *Engine, prop, tier string, seed int, reports []*fnReport, 
 			"solver_ms_total":          solverMs,
 			"known_findings":           known,
 			"contract_files":           e.specFiles,
+			"bounded_standins":         bounded,
 			"notes":                    e.notes,
 		},
 		"assumptions": assumptions,
